@@ -498,6 +498,25 @@ Theorem C05_concurrent_explored :
 Proof. exact C05_concurrent_explored_l. Qed.
 Print Assumptions C05_concurrent_explored.
 
+(* the explorers are also COMPLETE: every schedule (for the OCI system: with unsplit
+   Writes) that runs until no thread can move ends in a listed state, so the sets the
+   implementation's races are compared with are exactly the terminal states of the three
+   transition systems; and a finished OCI race leaves nothing under ingest/ *)
+Theorem C05_explorers_complete :
+  forall (H : str -> str -> str),
+  (forall big sched fuel st st',
+     crun H st (map (fun i => (i, big)) sched) = Some st' -> (forall i, cstep H st' i big = None) ->
+     (length sched < fuel)%nat -> In st' (explore H fuel big st)) /\
+  (forall sched fuel st st',
+     mrun H st sched = Some st' -> (forall i, mstep H st' i = None) ->
+     (length sched < fuel)%nat -> In st' (explore_m H fuel st)) /\
+  (forall sched fuel st st',
+     frun H st sched = Some st' -> (forall i, fstep H st' i = None) ->
+     (length sched < fuel)%nat -> In st' (explore_f H fuel st)) /\
+  (forall st, Forall (fun t => exists r, t_pc t = PDone r) (c_thr st) -> ingest_files st = []).
+Proof. exact explorers_complete. Qed.
+Print Assumptions C05_explorers_complete.
+
 (* the behaviour before the repair (NewVerifyReader accepted a negative Size): the
    CopyBuffer path stored the empty blob under a descriptor of size -1 *)
 Theorem C05_push_sound_refuted_negative_size :
